@@ -2,6 +2,7 @@
   C10 — Gradients accumulate additively across passes; a finished pass leaves no residue.
 -/
 import CorgiProofs.EngineTop
+import CorgiProofs.PathSum
 
 set_option linter.unusedSectionVars false
 
@@ -61,8 +62,54 @@ theorem C10_store_adds (n : Nat) (x : Tensor S) (σ σ' : EState S) (h : storeGr
     · intro hn; simp [mergeDelta, hn, pure, Except.pure] at hm; simp [upd, hm]
     · intro g0 hg; simp [mergeDelta, hg] at hm; exact ⟨g, hm, by simp [upd]⟩
 
+/-- **Accumulation is additive over any sequence of passes.**  Run any list of passes (root and seed
+    per pass: the same result again, an interior node and later a result containing it, results
+    sharing sub-graphs) from a clean state: coordinate `j` of the gradient of `ℓ` ends as its starting
+    value plus the sum of the path sums of the individual passes — what each pass would have added
+    alone — independently of what ran before. -/
+def passSum [AddLaws S] {G : Graph S} (sem : Sem G) (ℓ j : Nat) : List (Nat × Tensor S) → S
+  | [] => zero
+  | (root, x) :: ps => P sem ℓ j root x + passSum sem ℓ j ps
+
+def runSeeded (G : Graph S) (κ : Nat → Bool) (fuel : Nat) : List (Nat × Tensor S) → EState S → R (EState S)
+  | [], σ => pure σ
+  | (root, x) :: ps, σ => do
+    let σ1 ← backward G fuel root x.dims (κ root) (some x) { σ with log := [] }
+    runSeeded G κ fuel ps σ1
+
+theorem C10_additive [AddLaws S] {G : Graph S} (sem : Sem G) (wf : G.WF) (lawful : G.Lawful) (ℓ j fuel : Nat)
+    (ps : List (Nat × Tensor S)) (hfuel : ∀ p ∈ ps, p.1 < fuel) (hshape : ∀ p ∈ ps, Shaped (sem.dimsOf p.1) p.2) :
+    ∀ (σ σ' : EState S), σ.Clean → (∀ g, σ.grad ℓ = some g → Shaped (sem.dimsOf ℓ) g) →
+      runSeeded G sem.κ fuel ps σ = .ok σ' →
+      gradVal ℓ j σ' = gradVal ℓ j σ + passSum sem ℓ j ps ∧ σ'.Clean := by
+  induction ps with
+  | nil =>
+    intro σ σ' hc _ hr
+    simp only [runSeeded, pure, Except.pure, Except.ok.injEq] at hr
+    subst hr
+    exact ⟨by simp [passSum, add_zero'], hc⟩
+  | cons p ps ih =>
+    obtain ⟨root, x⟩ := p
+    intro σ σ' hc hg hr
+    simp only [runSeeded, bind, Except.bind] at hr
+    cases h1 : backward G fuel root x.dims (sem.κ root) (some x) { σ with log := [] } with
+    | error e => simp [h1] at hr
+    | ok σ1 =>
+      simp only [h1] at hr
+      have hx := hshape (root, x) (by simp)
+      have hf := hfuel (root, x) (by simp)
+      have hps := backward_pathsum sem ℓ j wf lawful fuel root hf x.dims (some x) { σ with log := [] } σ1 hc rfl hg x rfl hx h1
+      have hc1 := (backward_counts G wf lawful fuel root hf x.dims (sem.κ root) (some x) { σ with log := [] } σ1 hc rfl h1).1
+      obtain ⟨e2, hc2⟩ := ih (fun p hp => hfuel p (by simp [hp])) (fun p hp => hshape p (by simp [hp])) σ1 σ' hc1 hps.2 hr
+      refine ⟨?_, hc2⟩
+      rw [e2, hps.1]
+      simp only [passSum]
+      have : gradVal ℓ j { σ with log := [] } = gradVal ℓ j σ := rfl
+      rw [this, AddLaws.add_assoc]
+
 end Corgi
 
+#print axioms Corgi.C10_additive
 #print axioms Corgi.C10_clean
 #print axioms Corgi.C10_clean_history
 #print axioms Corgi.C10_store_adds
